@@ -10,4 +10,10 @@ CLAIMS = {
         note="Trusts harness/hapcfg's implementation of map_str/map_dir/map_beg lookup semantics (taken from HAProxy's pattern.c) and the documented meaning of begin/prefix/exact; regex paths and wildcard hosts are outside the statement and not generated.",
         technique="property-based testing (rapid) against a reference model of documented path precedence + exhaustive small-scope enumeration",
     ),
+    "C01": dict(
+        text="Generated histories of batched events are run through the real watchers, tracker, converters and instance; the files written by the long-lived controller are reduced to a behavioural normal form (routing outcome and applicable rules for every request of an alphabet derived from the case, backend static lines, server multisets, certificate per SNI) and compared with a fresh controller's on the final cluster state. Bounded exploration with measured class distribution; defects found were repaired in /repo or recorded.",
+        design_ref="DESIGN.md section 3, C01; section 2.5 (normal form)",
+        note="Trusts harness/hapcfg (evaluator of the emitted directive subset) and the in-memory API client standing in for the informer cache; requests for which the docs define no winner (same path declared with both non-exact types) are exempt; Gateway API objects and ConfigMap/Pod events are exercised by other checks.",
+        technique="stateful property-based testing (rapid): metamorphic differential, incremental history vs fresh full sync, on a behavioural normal form",
+    ),
 }
